@@ -127,6 +127,15 @@ where
         self.increase_limit(Dir::Bi, max_stream_bidi);
         self.increase_limit(Dir::Uni, max_stream_uni);
     }
+
+    /// Wake every task waiting for a stream id, without granting one.
+    fn wake_all(&mut self) {
+        for wakers in &mut self.wakers {
+            for waker in wakers.drain(..) {
+                waker.wake();
+            }
+        }
+    }
 }
 
 /// Management of stream IDs that can ben allowed to use locally.
@@ -222,6 +231,14 @@ where
             max_stream_bidi,
             max_stream_uni,
         );
+    }
+
+    /// Wake every task parked in [`ArcLocalStreamIds::poll_alloc_sid`].
+    ///
+    /// Called when the connection fails: no MAX_STREAMS frame will arrive any more,
+    /// the woken tasks poll again and observe the connection error.
+    pub fn wake_all(&self) {
+        self.0.lock().unwrap().wake_all();
     }
 }
 
